@@ -170,10 +170,7 @@ func H12e() {
 	case 0: // honest wallet
 		vCover("honest")
 		nv := vLen(0, vParam("v", 2))
-		wallet := make([]vc.VerifiableCredential, nv)
-		for i := range wallet {
-			wallet[i] = hCred(i, i%2 == 1)
-		}
+		wallet := hWallet(def, nv)
 		builder := def.PresentationSubmissionBuilder()
 		builder.AddWallet(did.DID{Method: "web", ID: "holder"}, wallet)
 		sub, sign, err := builder.Build("ldp_vp")
@@ -208,10 +205,7 @@ func H12e() {
 	case 1: // arbitrary descriptor map
 		vCover("forged")
 		nv := vLen(1, vParam("v", 2))
-		presented := make([]vc.VerifiableCredential, nv)
-		for i := range presented {
-			presented[i] = hCred(i, i%2 == 1)
-		}
+		presented := hWallet(def, nv)
 		sub := PresentationSubmission{Id: "s", DefinitionId: def.Id}
 		nm := vLen(0, nd+1)
 		for k := 0; k < nm; k++ {
